@@ -20,7 +20,7 @@ from . import common
 from .common import Ctx
 from . import c09_ref as ref
 from .c09_world import (RealWorld, op_tokens, render_world, KINDS, UNIT_TABLE, units_token, concretise,
-                        base_world_ops, SYMBOLIC_ALPHABET, random_history, diff_history)
+                        base_world_ops, SYMBOLIC_ALPHABET, random_history, diff_history, time_history)
 
 
 def _stream(ops_sym, rw):
@@ -59,10 +59,27 @@ def _count_diff(ctx: Ctx, op, status, out, exp_status, info):
         ctx.count("diff:result-replaces-operand")
 
 
+def _conv_class(c: str) -> str:
+    fr, to = c.replace("d:", "").split(">")
+    (fs, ff), (ts, tf) = fr.split("/"), to.split("/")
+    return ("scale" if fs != ts else "") + ("+" if fs != ts and ff != tf else "") + ("format" if ff != tf else "")
+
+
+def _count_sort_key(ctx: Ctx, rf, op):
+    """what the sort key of a merge looks like: a time field? epochs closer than the resolution of a Julian date?"""
+    f = rf.find(rf.ds[op["d"]].fields, op["sort_by"].split("."))
+    if f is None or isinstance(f, ref.RColl) or f.kind != "time":
+        return
+    ctx.count("sort-key:time-field:" + (f.obj.tag.split("/")[-1]))
+    jds = sorted(Fraction(r[0][1:]) + Fraction(r[1][1:]) for r in f.obj.rows if r[0] != "nan")
+    if any(0 < b - a < Fraction(40, 86400 * 10**6) for a, b in zip(jds, jds[1:])):
+        ctx.count("sort-key:time-field:epochs-closer-than-40us")
+
+
 def run_history(ctx: Ctx, ops_sym, tag: str, corpus: bool = False):
     """execute one history on the real code, the reference and the model; returns nothing, reports"""
-    rw = RealWorld()
-    rf = ref.RefWorld()
+    rw = RealWorld(tv=True)
+    rf = ref.RefWorld(conv=rw.conv)
     concrete = []
     impl_out = []
     stop = False
@@ -85,6 +102,11 @@ def run_history(ctx: Ctx, ops_sym, tag: str, corpus: bool = False):
             _count_diff(ctx, op, status, out, exp_status, rf.diff_info)
         if getattr(rf, "or_fields_used", False):
             ctx.count("filter:on-<name>_self/_other-fields")
+        if exp_status == "ok":
+            for c in sorted(rf.converted):
+                ctx.count("insert-converts:" + ("time-delta:" if c.startswith("d:") else "time:") + _conv_class(c))
+            if op["op"] == "merge" and op.get("sort_by") and status == "ok":
+                _count_sort_key(ctx, rf, op)
         nviol = ctx.hist.get("oracle_failures", 0)
         if not (quiet and status == "ok" and exp_status == "ok"):
             ref.judge(ctx, op, concrete, status, out, exp_status, exp_out, rw, rf)
@@ -97,7 +119,7 @@ def run_history(ctx: Ctx, ops_sym, tag: str, corpus: bool = False):
     for o in concrete:
         ctx.count("op=" + o["op"] + (":" + o["how"] if "how" in o else ""))
     # ---- correspondence
-    line = "c09 run " + units_token() + " " + " | ".join(
+    line = "c09 run " + units_token() + " " + rw.conv.token() + " " + " | ".join(
         ("q " if o.get("setup") else "") + " ".join(op_tokens(o)) for o in concrete)
     model = ctx.driver.ask1(line).split(" || ")
     ctx.traces += 1
@@ -131,11 +153,20 @@ def run(ctx: Ctx):
                 "every type at the top level and in collections nested to depth 2, one-sided fields, differing / "
                 "incompatible / one-sided units, both copy flags, result into a new slot or replacing an operand, then "
                 "up to 3 operations on the result (subsets, self-extend, positional self-difference, sort, the reverse "
-                "difference joined on, delete); a history is non-trivial when it "
+                "difference joined on, delete); (d) histories around time fields: 2..3 datasets with 2..3 time fields "
+                "(scale utc/gps/tai/tt and format mjd/jd/datetime/jyear differing between and inside the datasets, equal "
+                "epochs in separate arrays, one array under two names, epochs 5..45 microseconds apart, 0-row datasets, "
+                "missing and nested fields), extended both ways, merged with a time field as the sort key, subset; in (b) a "
+                "time / time-delta field has another scale / format than in the other datasets in 45% of the cases; "
+                "a history is non-trivial when it "
                 "contains at least one row-moving operation; distinct by its canonical concrete operation list; after "
                 "every operation the WHOLE world (all datasets) is compared")
     ctx.trusted += ["pint unit factors enter the model as a table computed from the real Unit() on this run",
-                    "time-scale / position-system conversion inside insert is not modelled (generators keep them equal)",
+                    "the epoch-by-epoch conversion of a time to another scale / format inside insert enters model and oracle as "
+                    "a table computed from the real Time classes on this run (closed under repeated conversion to depth 4); "
+                    "position-system conversion inside insert is not modelled (generators keep the system equal)",
+                    "no dataset of the world holds a cached scale-conversion result (`t.gps`) as a field (the memo entry "
+                    "TimeBase.insert makes under the id of the converted array is modelled as no entry)",
                     "NumPy fancy indexing and np.insert modelled as list pick / splice",
                     "np.intersect1d(return_indices=True) on object-dtype records modelled as: distinct common key tuples "
                     "in ascending field-by-field order, each with its first row in either dataset",
@@ -164,6 +195,9 @@ def run(ctx: Ctx):
     # (c) histories around `difference`
     for _ in range(ctx.budget(350, 6000)):
         run_history(ctx, diff_history(rng), "difference")
+    # (d) histories around time fields of different scale / format, equal epochs, epochs microseconds apart
+    for _ in range(ctx.budget(220, 5000)):
+        run_history(ctx, time_history(rng), "time")
 
 
 def replay(payload):
@@ -171,8 +205,8 @@ def replay(payload):
     ctx = Ctx("C09", "quick", 0)
     c = payload.get("replay", payload)
     ops = c["ops"] if "ops" in c else c["case"]["ops"]
-    rw = RealWorld()
-    rf = ref.RefWorld()
+    rw = RealWorld(tv=True)
+    rf = ref.RefWorld(conv=rw.conv)
     done = []
     for op in ops:
         done.append(op)
